@@ -109,8 +109,9 @@ def run(prop, tier_, cfg, sample=None, jobs=12, bind_budget=False):
                     if bname == "kernel":
                         calls.append(ker)
                 # every third batch is called from a thread with a private descriptor table (the leader holds a directory outside
-                # the root at the same descriptor numbers): the answers must not depend on the caller's context
-                pv_cases.append(dict(id="%s-%s-%d" % (tname, bname, b0), tree=nodes, feat=feat, trace=False, in_thread=((b0 // B) % 3 == 2), calls=calls))
+                # the root at the same descriptor numbers), another third with a root descriptor the caller opened
+                # O_RDONLY|O_DIRECTORY itself: the answers must not depend on the caller's context
+                pv_cases.append(dict(id="%s-%s-%d" % (tname, bname, b0), tree=nodes, feat=feat, trace=False, in_thread=((b0 // B) % 3 == 2), root_rdonly=((b0 // B) % 3 == 1), calls=calls))
                 index.append((tname, bname, chunk))
     # sort so that shards see one feature set contiguous
     order = sorted(range(len(pv_cases)), key=lambda i: index[i][1])
@@ -147,6 +148,8 @@ def run(prop, tier_, cfg, sample=None, jobs=12, bind_budget=False):
     tcases = [dict(id="conf|%d" % i, tree=tree_nodes(trees[c["tree"]]), feat={"openat2": i % 4 == 3}, trace=True, raw=False,
                    calls=[calls_for(trees[c["tree"]], c)[0]]) for i, c in enumerate(rc_cases[:400 if sample else 4000])]
     tcases.sort(key=lambda c: c["feat"]["openat2"])
+    if prop != "C01":
+        tcases = tcases[:40]      # the action-level conformance belongs to C01; other users of this family keep a smoke sample
     tres = run_pv(tcases, jobs=jobs, tag=prop + "c")
     conf = lookup_conformance(tcases, tres)
     stats["conf_validated"], stats["conf_accepted"], stats["conf_drift"] = conf["validated"], conf["accepted"], len(conf["drift"])
